@@ -571,7 +571,7 @@ def r_stmt(st, style=PLAIN, indent=""):
     elif k == "include":
         body = style.caseflip(".include") + f' "{getattr(st, "spell", None) or st.path}"'
     elif k == "insert":
-        body = style.caseflip("insert_file") + f' "{st.path}"'
+        body = style.caseflip("insert_file") + f' "{getattr(st, "spell", None) or st.path}"'
     elif k == "extern":
         body = style.caseflip(".extern") + " " + ", ".join(style.caseflip(n) for n in st.names)
     elif k == "raw":
